@@ -716,43 +716,65 @@ def rule_h_equals_reports(chk, prog):
     chk.analysed(f)
     em = ErrModel(prog)
     n = 0
-    rec = {i.bb for i in f.insts() if i.op == "store" and _fld(i.ops[1]) == "fblk_lookup_error" and
-           not (i.ops[0].is_const and i.ops[0].is_int and i.ops[0].sval == 0)}
-    rets = {r.bb for r in f.rets()}
-    for c in f.calls():
-        if not em.call_is_err(c):
-            continue
-        n += 1
-        inst = "chunk_info_equals:%s" % (norm_callee(c.callee) or "indirect")
-        bad = None
-        edges = failure_edges(f, c)
-        if not edges:
-            chk.violation("K5-frag-report", inst, c, "the result of %s is not tested against zero" % norm_callee(c.callee))
-            continue
-        # every path from the call, taken under the assumption that it failed (branches on the result against zero are
-        # followed on the failing side; tests against particular error codes can go either way), records the error
-        from .c13 import _e7_walk
+    from .c13 import _e7_walk
+    root = f
+    done = set()
 
-        class _S:
-            pass
-        st = _S()
-        st.bb = c.bb
-        for (v, r, path) in _e7_walk(prog, f, st, None, [], set(), {id(c)}):
-            recorded = False
-            for k, b in enumerate(path):
-                insts = b.insts[c.pos + 1:] if (k == 0 and b is c.bb) else b.insts
-                if any(i.op == "store" and _fld(i.ops[1]) == "fblk_lookup_error" and
-                       not (i.ops[0].is_const and i.ops[0].is_int and i.ops[0].sval == 0) for i in insts):
-                    recorded = True
-            if not recorded:
-                bad = r.bb
-                break
-        if bad is None:
-            chk.ok("K5-frag-report", inst, c, "every failure of the read-back is recorded in fblk_lookup_error before the callback returns")
-        else:
-            chk.violation("K5-frag-report", inst, bad.term, "a failure of %s can end in 'not equal' without being recorded in "
-                          "fblk_lookup_error: an I/O error while reading the candidate back is swallowed and the run goes on with a "
-                          "cache that may hold half of another block" % norm_callee(c.callee))
+    class _S:
+        pass
+
+    def verify(g, is_root):
+        """every failure of something g calls is on record when control is back in the hash table: recorded in g, or (g a static
+        helper) handed to g's caller as a non-zero status, where the same is asked of the caller"""
+        nonlocal n
+        if g in done:
+            return
+        done.add(g)
+        g.build()
+        chk.analysed(g)
+        for c in g.calls():
+            h = prog.fn(c.callee, g.unit) if c.callee else None
+            if h is not None and not h.decl and h.internal and h.unit is g.unit and not em.call_is_err(c):
+                verify(h, False)        # a helper that answers something else than a status: it records what fails in it
+                continue
+            if not em.call_is_err(c):
+                continue
+            n += 1
+            inst = "%s:%s" % (g.name, norm_callee(c.callee) or "indirect")
+            bad = None
+            edges = failure_edges(g, c)
+            if not edges:
+                chk.violation("K5-frag-report", inst, c, "the result of %s is not tested against zero" % norm_callee(c.callee))
+                continue
+            # every path from the call, taken under the assumption that it failed (branches on the result against zero are
+            # followed on the failing side; tests against particular error codes can go either way), records the error
+            st = _S()
+            st.bb = c.bb
+            for (v, r, path) in _e7_walk(prog, g, st, None, [], set(), {id(c)}):
+                recorded = False
+                for k, b in enumerate(path):
+                    insts = b.insts[c.pos + 1:] if (k == 0 and b is c.bb) else b.insts
+                    if any(i.op == "store" and _fld(i.ops[1]) == "fblk_lookup_error" and
+                           not (i.ops[0].is_const and i.ops[0].is_int and i.ops[0].sval == 0) for i in insts):
+                        recorded = True
+                if not recorded and not is_root and g in em.err:
+                    # a static helper with a status of its own: the failure goes up as a non-zero answer and the caller is
+                    # asked the same question at its call of the helper
+                    vv = strip_casts(v)
+                    if vv is c or (vv.is_const and vv.is_int and vv.sval != 0) or not vv.is_const:
+                        recorded = True
+                if not recorded:
+                    bad = r.bb
+                    break
+            if bad is None:
+                chk.ok("K5-frag-report", inst, c, "every failure of the read-back is recorded in fblk_lookup_error before the callback returns")
+            else:
+                chk.violation("K5-frag-report", inst, bad.term, "a failure of %s can end in 'not equal' without being recorded in "
+                              "fblk_lookup_error: an I/O error while reading the candidate back is swallowed and the run goes on with a "
+                              "cache that may hold half of another block" % norm_callee(c.callee))
+            if h is not None and not h.decl and h.internal and h.unit is g.unit:
+                verify(h, False)
+    verify(root, True)
     if n == 0:
         chk.broke("chunk_info_equals no longer calls a function that can fail")
 
